@@ -221,7 +221,8 @@ def analyse_game(prop, sc, rewards, acc, thresholds=()):
                 f, judged, skipped = J.judge_c05_exact(sc, gr)
                 acc["exact_states_judged"] = acc.get("exact_states_judged", 0) + judged
                 acc["exact_states_out_of_scope"] = acc.get("exact_states_out_of_scope", 0) + skipped
-                add(f, cfg)
+                add([x for x in f if not x[0].startswith("KF-")], cfg)
+                add_known([x for x in f if x[0].startswith("KF-")], cfg)
             fs, rs = res[0], res[1]
             if any(sc.players[s] == P1 and fs[s] is not None and rs[s] is not None and len(fs[s]) < len(rs[s])
                    for s in range(sc.n)):
@@ -408,6 +409,8 @@ def _game_family(name, shard):
             _FAMILIES[key] = U.U_M_games()
         elif name == "U-M2":
             _FAMILIES[key] = U.U_M2_games()
+        elif name == "U-RB":
+            _FAMILIES[key] = U.U_RB_games()
         elif name == "U-SC":
             _FAMILIES[key] = U.U_SC_games((16, 32, 50, 64, 100, 128, 256) if shard.get("all_sizes") else (256,))
         elif name in ("U-E", "U-C", "U-L", "U-R", "U-P2", "U-N", "U-W", "U-Z", "U-G", "U-K"):
